@@ -306,13 +306,23 @@ func genC09(g *Gen) {
 	})
 	g.encodingGrid(0.1, func(x d128.Decimal) {
 		_, _, c, e := unmk(x)
-		if e < -400 || e > 400 { // the oracle handles the far ends, but slowly: every eighth of them
+		if (e < -400 || e > 400) && c.Sign() != 0 { // the oracle handles the far ends, but slowly: every eighth of them
 			if g.r.Intn(8) != 0 {
 				x = mk(g.r.Intn(2) == 0, c, g.r.Intn(17)-8)
 			}
 		}
 		g.un("Float64", x)
 		g.un("Float32", x)
+	})
+	// zeros with every kind of exponent (the range checks of the conversions must look at the coefficient first)
+	zexps := []int{-6176, -1000, -400, -359, -358, -325, -46, -1, 0, 1, 38, 39, 308, 309, 310, 400, 1000, 6111}
+	g.gridRun(len(zexps)*2, 0.03, func(i int) {
+		x := mk(i%2 == 1, new(big.Int), zexps[i/2])
+		g.un("Float64", x)
+		g.un("Float32", x)
+		e := Ev{"op": "Float", "rprec": []int{-1, 24, 53}[g.r.Intn(3)]}
+		e.setDec("x", x)
+		g.emit(e)
 	})
 	g.floatEdgeGrid(0.3, func(x d128.Decimal) {
 		g.un("Float64", x)
